@@ -100,6 +100,10 @@ def apply_event(tab, e, via="fn"):
             s = Stabilizer(tab)
             s.remove_qubit(e["a"] - 1, det_arg(e["d"]))
             return s.tableau, e
+        if via == "mixed":
+            s = MixedStabilizer(tab)
+            s.remove_qubit(e["a"] - 1, det_arg(e["d"]))
+            return s.mixture[0][1], e
         return sfc.remove_qubit(tab, e["a"] - 1, det_arg(e["d"])), e
     if ev == "ptrace":
         keep = [k - 1 for k in e["keep"]]
@@ -107,6 +111,13 @@ def apply_event(tab, e, via="fn"):
             s = Stabilizer(tab)
             s.trace_out_qubits(keep, det_arg(e["d"]))
             return s.tableau, e
+        if via == "mixed":
+            s = MixedStabilizer(tab)
+            if e["d"] == 2:
+                s.partial_trace(keep, [2] * tab.n_qubits)
+            else:
+                s.trace_out_qubits(keep, det_arg(e["d"]))
+            return s.mixture[0][1], e
         return sfc.partial_trace(tab, keep, [2] * tab.n_qubits, det_arg(e["d"])), e
     if ev == "tensor":
         others = [pj.rows_to_tableau(o["destab"], o["stab"]) for o in e["_others_rows"]]
